@@ -44,6 +44,8 @@ Mutations(e) ==
     \cup {[kind |-> "setbyte", bytes |-> [e EXCEPT ![i] = b]] : i \in DOMAIN e, b \in MutBytes}
     \cup {[kind |-> "nonminimal", bytes |-> Splice(e, i, <<253, e[i], 0>>)] : i \in DOMAIN e}
     \cup {[kind |-> "hugecount", bytes |-> Splice(e, i, <<254, 255, 255, 255, 127>>)] : i \in DOMAIN e}
+    \cup {[kind |-> "hugecount8", bytes |-> Splice(e, i, <<255, 0, 0, 0, 0, 0, 0, 0, 128>>)] : i \in DOMAIN e}     \* count >= 2^63
+    \cup {[kind |-> "hugecount8", bytes |-> Splice(e, i, <<255, 255, 255, 255, 255, 255, 255, 255, 127>>)] : i \in DOMAIN e}
     \cup {[kind |-> "junk", bytes |-> e \o <<7>>]}
 
 \* cells that cell 1 does not reach are irrelevant: only their canonical (empty array) form is kept
